@@ -24,7 +24,7 @@ ASSUMPTIONS = ["float64 CPU", "near-equilibrium closed-shell molecules with HOMO
                "the independent reference model (MNDO/AM1/PM3) or, for PM6_SP, by restarting a damped SCF 0.01 away from the state",
                "candidates the API flags not converged are counted, not compared",
                "KSA driven at T_el = 100 K (occupation smearing exp(-gap/2kT) < 1e-50)"]
-REQUIRED_MONITORS = ["batch_sp2_calls_uneven_sweeps", "batch_sp2_rows_vs_alone", "batch_rows_compared", "batch_uhf_rows_compared", "candidates_compared", "sp2_candidates_compared", "uhf_candidates_compared",
+REQUIRED_MONITORS = ["padded_anion_rows_compared_ksa", "padded_anion_rows_compared", "batch_sp2_calls_uneven_sweeps", "batch_sp2_rows_vs_alone", "batch_rows_compared", "batch_uhf_rows_compared", "candidates_compared", "sp2_candidates_compared", "uhf_candidates_compared",
                      "restart_candidates_compared", "ksa_candidates_compared", "monotonicity_pairs"]
 CASE_TIMEOUT = 600.0
 BUDGET_S = {"quick": 200, "thorough": 1700}
@@ -141,6 +141,27 @@ def gen_cases(tier, seed):
         cases.insert(1 + k, {"kind": "batch", "sp2_alone": True, "mols": [{"name": n, "gseed": int(g.integers(0, 2**31))} for n in names],
                              "method": "AM1", "sigma": 0.03, "pad": 0,
                              "cands": [dict(c, sp2=float(_pick(g, [1e-5, 1e-7])) if tier == "thorough" else c["sp2"]) for c in ucands]})
+    # heterogeneous zero-padded batches whose SMALLER member is a closed-shell anion (chemical potential above 0 eV next to
+    # padding orbitals at 0 eV), every solver incl. KSA at T_el 300-1500 K, thermal mixing and SP2
+    def acands(T1, T2):
+        return [{"conv": [1], "sp2": None, "uhf": False}, {"conv": [2], "sp2": None, "uhf": False}, {"conv": [0, 0.3], "sp2": None, "uhf": False},
+                {"conv": [1], "sp2": 1e-7, "uhf": False}, {"conv": [1], "sp2": None, "uhf": True},
+                {"conv": [3, {"T_el": T1, "max_rank": 3, "err_threshold": 0.0}], "sp2": None, "uhf": False},
+                {"conv": [3, {"T_el": T2, "max_rank": 3, "err_threshold": 0.0}], "sp2": None, "uhf": False},
+                {"conv": [0, 0.3, "T_el", T2], "sp2": None, "uhf": False}]
+    an = [(["CH2O", "OH-"], "AM1", 300.0, 1500.0), (["CH3OH", "CN-"], "PM3", 800.0, 1500.0), (["C2H4", "NH2-", "H2O"], "AM1", 300.0, 1000.0),
+          (["CH4", "HS-"], "MNDO", 1500.0, 500.0)]
+    if tier == "thorough":
+        bigs = ["CH2O", "CH3OH", "C2H4", "CH4", "HCOOH", "CH3NH2", "C2H6", "HCN", "NH3"]
+        for i in range(20):
+            me = METHODS[i % 3]
+            a_ = _pick(g, ANIONS)
+            nm = [_pick(g, bigs)] + [a_] + ([_pick(g, bigs + ["H2O"])] if i % 3 == 0 else [])
+            an.append((nm if i % 2 else nm[::-1][-2:] + nm[2:], me, float(_pick(g, [300.0, 500.0, 800.0])), float(_pick(g, [1000.0, 1500.0]))))
+    for k, (names, method, T1, T2) in enumerate(an):
+        cases.insert(1 + k, {"kind": "batch", "anion": True, "mols": [{"name": n, "gseed": int(g.integers(0, 2**31))} for n in names],
+                             "method": method, "sigma": 0.03, "pad": int(g.integers(0, 2)),
+                             "cands": [dict(c, eps=1e-8) for c in acands(T1, T2)]})
     for k, (names, method) in enumerate(named + batches):
         cases.insert(1 + k, {"kind": "batch", "mols": [{"name": n, "gseed": int(g.integers(0, 2**31))} for n in names],
                              "method": method, "sigma": float(_pick(g, [0.02, 0.05])), "pad": int(g.integers(0, 2)),
@@ -168,6 +189,19 @@ def _bounds(c, rho=0.0, width=0.0, lam=0.0):
     ee = max(float(c["eps"]), s2)
     return ee, A, {"E": ABS_E + K_E * ee * A + 8.0 * s2 * width, "F": ABS_F + K_F * ee * A, "q": ABS_Q + K_Q * ee * A,
                    "emo": ABS_EMO + K_EMO * ee * A}
+
+
+# closed-shell anions that the shared library does not carry (name: (Z sorted non-increasing, X, charge))
+EXTRA_MOLS = {"NH2-": ([7, 1, 1], [[0.0, 0.0, 0.0], [0.8005, 0.0, 0.6482], [-0.8005, 0.0, 0.6482]], -1),
+              "HS-": ([16, 1], [[0.0, 0.0, 0.0], [1.35, 0.0, 0.0]], -1)}
+ANIONS = ["OH-", "CN-", "NH2-", "HS-"]
+
+
+def _mol(name):
+    if name in EXTRA_MOLS:
+        Z, X, q = EXTRA_MOLS[name]
+        return list(Z), np.array(X, float), q, 1
+    return gen.molecule(name)
 
 
 def _finite(out, row=0):
@@ -205,7 +239,8 @@ def _run_batch(case):
            "batch_sp2_rows_compared": 0, "batch_rows_not_converged": 0, "batch_rows_ineligible": 0, "candidates_raised": 0,
            "failpoints_fired": 0, "uhf_broken_symmetry_below_rhf": 0, "batch_rows_other_stationary_point": 0,
            "candidates_compared": 0, "uhf_candidates_compared": 0, "sp2_candidates_compared": 0, "get_error_calls": 0,
-           "batch_sp2_calls_uneven_sweeps": 0, "batch_sp2_rows_vs_alone": 0}
+           "batch_sp2_calls_uneven_sweeps": 0, "batch_sp2_rows_vs_alone": 0, "padded_anion_rows_compared": 0,
+           "padded_anion_rows_compared_ksa": 0, "ksa_candidates_raised": 0, "ksa_candidates_compared": 0}
     viol, margins, cells = [], {}, []
 
     def upd(name, val, tol):
@@ -218,7 +253,7 @@ def _run_batch(case):
 
     mols, refs = [], []
     for mm in case["mols"]:
-        Z, X, q, m = gen.molecule(mm["name"])
+        Z, X, q, m = _mol(mm["name"])
         g0 = np.random.default_rng(mm["gseed"])
         Xd = gen.distort(X, g0, sigma=case["sigma"])
         Xd = Xd @ gen.generic_rotation(Xd, g0).T + g0.uniform(-3, 3, 3)
@@ -275,8 +310,17 @@ def _run_batch(case):
                 out = run.single_point(S, C, sett, charges=charges, mult=[1.0] * nrow, keep=True)
             except scfmon.FailPoint:
                 mon["failpoints_fired"] += 1
-            except Exception:
+            except Exception as exc:
                 mon["candidates_raised"] += 1
+                if c["conv"][0] == 3:
+                    # the experimental KSA solver rejects some heterogeneous batches loudly (shape mismatch once rows converge in
+                    # different iterations; NaN into eigh): a loud failure, same standing as a non-convergence flag (counted)
+                    mon["ksa_candidates_raised"] += 1
+                elif "converge" not in str(exc).lower():
+                    # every molecule of the batch ran alone (reference arm completed): another solver raising is a path dependence
+                    viol.append({"clause": "candidate-raised-while-reference-completed", "mech": None,
+                                 "detail": {"candidate": c, "exception": "%s: %s" % (type(exc).__name__, str(exc)[:300]),
+                                            "batch": [mm["name"] for mm in case["mols"]], "species": S, "coords": C}})
         finally:
             lw.uninstall()
             elog.uninstall()
@@ -362,10 +406,22 @@ def _run_batch(case):
                 mon["batch_sp2_rows_compared"] += 1
                 mon["sp2_candidates_compared"] += 1
             cells.append(tag + "/nrow%d" % nrow)
+            if c["conv"][0] == 3:
+                mon["ksa_candidates_compared"] += 1
+                grp = "ksa"
+            if case.get("anion") and q < 0 and 0 in S[b]:
+                mon["padded_anion_rows_compared"] += 1
+                if c["conv"][0] == 3:
+                    mon["padded_anion_rows_compared_ksa"] += 1
             for k in ("E", "F", "q", "emo"):
                 if upd("batch_d%s/%s" % (k, grp), err[k], B[k]):
                     viol.append({"clause": "batch-row-d" + k, "mech": None,
                                  "detail": dict(detail, error=err[k], bound=B[k], ratio=err[k] / B[k], A=A)})
+            # the atomic charges of the row add up to the molecular charge (each charge is within its own bound)
+            qs = abs(float(np.sum(out["q"][b][:nat])) - float(q))
+            if upd("batch_charge_sum/%s" % grp, qs, 2e-9 + nat * B["q"]):
+                viol.append({"clause": "batch-row-charge-sum", "mech": None,
+                             "detail": dict(detail, charge_sum=float(np.sum(out["q"][b][:nat])), charge=float(q), bound=2e-9 + nat * B["q"])})
             if case.get("sp2_alone") and c.get("sp2"):
                 # same solver configuration, molecule alone: SP2 acts row by row, both runs end within one admissible step
                 # of the same fixed point of the same map -> bounds in scf_eps (1e-10), not in the SP2 tolerance
